@@ -16,7 +16,7 @@ func init() {
 	register(&Check{
 		ID:    "C19",
 		Level: "exploration",
-		Rule: "real goroutines, no scheduler, built with -race: m = 4..12 connections, each with its own tables on 1-3 shared bucket prefixes, each running an independent seeded stream of 25-60 steps (INSERT/UPDATE/DELETE on its own key range and on a few shared keys, transactions with rollback, s3db_refresh, s3db_version, s3db_vacuum with a cutoff older than every stamp, drop/create) under its own write_time range and its own deadline; one connection runs part of its stream under an expired deadline; the store sleeps 0-300 us before every request, outside its mutex, to widen interleavings; the whole workload is repeated 3 times per case; one case in six uses the built-in bucket (no hook on the path). " +
+		Rule: "real goroutines, no scheduler, built with -race: m = 4..12 connections, each with its own tables on 1-3 shared bucket prefixes, each running an independent seeded stream of 25-60 steps (INSERT/UPDATE/DELETE on its own key range and on a few shared keys, transactions with rollback, s3db_refresh, s3db_version, s3db_vacuum with a cutoff older than every stamp, drop/create) under its own write_time range and its own deadline, plus inserts of REAL, TEXT and BLOB keys into a side table that only this connection uses (own prefix, 2-4 entries per node); one connection runs part of its stream under an expired deadline; the store sleeps 0-300 us before every request, outside its mutex, to widen interleavings; the whole workload is repeated 3 times per case; one case in six uses the built-in bucket (no hook on the path). " +
 			"Monitors: every WARNING: DATA RACE block in the race log (deduplicated by outermost frames) is a violation; the worker must neither die nor hang; every decoded stamp of a key owned by connection i must lie in i's write_time range; only the connection with the expired deadline may see deadline errors; per prefix the final merged rows must equal the M-row model of all accepted statements; each connection's view of its own keys must equal its own stream applied sequentially. " +
 			"non-trivial = >=4 connections completed and >=2 shared a prefix; distinct = hash of the arrival order of requests at the store (distinct interleavings are also counted)",
 		Flavours: []string{"race"},
@@ -127,6 +127,26 @@ func c19Round(c *Case, r *Rng, builtin bool, rep int) {
 					cc.conn.Exec("drop table " + sharedName)
 				}
 			}()
+			// a side table of its own (own prefix, small nodes) with REAL, TEXT and BLOB keys: nothing
+			// is shared with the other connections except the process
+			sideSpec := TableSpec{Name: cc.table + "_side", Cols: "k PRIMARY KEY, v", Prefix: prefixName(100 + cc.idx), EPN: []int{3, 4, 2}[cc.idx%3]}
+			if !builtin {
+				sideSpec.Store, sideSpec.Client = st.Name, fmt.Sprintf("c%d", cc.idx)
+			}
+			if err := cc.conn.Create(sideSpec); err != nil {
+				cc.errs = append(cc.errs, "create side table: "+err.Error())
+				return
+			}
+			sideN := 0
+			defer func() {
+				rows, err := cc.conn.Rows("select k from " + sideSpec.Name + " order by k")
+				if err != nil {
+					cc.errs = append(cc.errs, "side table: "+err.Error())
+				} else if len(rows) != sideN {
+					cc.errs = append(cc.errs, fmt.Sprintf("side table: %d keys inserted, %d rows read", sideN, len(rows)))
+				}
+				cc.conn.Exec("drop table " + sideSpec.Name)
+			}()
 			base := 10000 * (cc.idx + 1) // write_time range [base, base+9999]
 			tcur := base
 			own := func(n int) int { return 1000*(cc.idx+1) + n }
@@ -173,6 +193,23 @@ func c19Round(c *Case, r *Rng, builtin bool, rep int) {
 				}
 				tcur += rr.Range(1, 9)
 				cc.conn.SetWriteTime(tcur)
+				if rr.Bool() {
+					var sk interface{}
+					switch n := s*3 + rr.Intn(3); rr.Intn(4) {
+					case 0:
+						sk = fmt.Sprintf("text-%d-%d", cc.idx, n)
+					case 1:
+						sk = []byte{byte(cc.idx), byte(n >> 8), byte(n)}
+					default:
+						sk = float64(n) + []float64{0.25, 0.5, 1e-9, 1e17}[rr.Intn(4)]
+					}
+					err := cc.conn.Exec("insert into "+sideSpec.Name+" values (?,?)", sk, int64(s))
+					if err == nil {
+						sideN++
+					} else if errClass(err) != "constraint-pk" {
+						note("side insert", err)
+					}
+				}
 				exec := func(kind string, key int, cv map[string]string) {
 					id++
 					hs := HStmt{ID: id, W: cc.idx, Kind: kind, Key: key, Cols: cv, T: tcur}
